@@ -29,6 +29,7 @@ LEVEL_TEXT = (
     "cleaning the cleaned value must return it unchanged, the raw argument must be structurally unchanged, and the "
     "program (commands, library, is_finished of referenced commands, execution log) must be untouched. The matrix is "
     "enumerated completely; generated values are sampled."
+    " A lookalikes part cleans values that compare equal but differ in kind or sign (0, 0.0, -0.0, False, '0') one after the other; numpy scalars, non-finite texts, odd digit characters and relative paths through ./, ../ and dot-files are in the pool; an error raised by clean(..., lineno) must not carry another line."
 )
 LEVEL_NOTE = "Cells the docs leave open (numeric strings with blanks or exponents, bool given for a number, non-string given for a String) are only checked by the relations, not against an expected value."
 RULE = (
